@@ -8,6 +8,7 @@
 #include <string.h>
 
 #include "bobyqa.h"
+#include "nlopt-verif.h"
 
 typedef double (*bobyqa_func)(int n, const double *x, void *func_data);
 
@@ -3077,6 +3078,7 @@ static double rescale_fun(int n, const double *x, void *d_)
 {
      rescale_fun_data *d = (rescale_fun_data*) d_;
      nlopt_unscale(U(n), d->s, x, d->xs);
+     NLOPT_VERIF_SITE(103, n, d->xs);
      clamp_to_bounds(n, d->xs, d->lb, d->ub);
      return d->f(U(n), d->xs, NULL, d->f_data);
 }
